@@ -123,7 +123,9 @@ fn main() {
     for d in args.gen.iter().chain(args.witnesses.iter()) {
         run_case(&mut rec, d);
     }
-    let offsets: Vec<(i32, i32)> = vec![(-7, -9), (5, -3), (-4, 6), (0, 0), (500, -500), (1, 0), (-13, 2), (0, 11)];
+    // incl. far offsets: beyond 2^24 (f32 cannot represent odd integers there) and far from BOTH axes
+    let offsets: Vec<(i32, i32)> = vec![(-7, -9), (5, -3), (-4, 6), (0, 0), (500, -500), (1, 0), (-13, 2), (0, 11), (-20_000_001, 3), (100_000, 200_000), (16_777_217, -70_001)];
+    let noff = offsets.len();
     let tl = (2, 1);
     let mut all = catalog::prims("Rgb565", th, &mut rng, tl);
     all.extend(catalog::texts("Rgb565", th, tl));
@@ -132,7 +134,7 @@ fn main() {
     let mut n = 0usize;
     for d in &all {
         n += 1;
-        let picks: Vec<usize> = if th { vec![n % 8, (n + 3) % 8, (n + 5) % 8] } else { vec![n % 8] };
+        let picks: Vec<usize> = if th { vec![n % noff, (n + 3) % noff, (n + 5) % noff] } else { vec![n % noff] };
         for k in picks {
             run_case(&mut rec, &json!({"d": d, "by": [offsets[k].0, offsets[k].1]}));
         }
@@ -154,6 +156,24 @@ fn main() {
         let shape = if (k / 4) % 2 == 0 { json!({"k":"polyline","v":v,"off":[0, 0]}) } else { json!({"k":"triangle","v":v}) };
         let fill = if k % 8 == 0 { col.fill } else { -1 };
         run_case(&mut rec, &json!({"d": {"kind":"prim","shape":shape,"style":style_desc(fill, col.stroke, w, al as u32)}, "by": [by.0, by.1]}));
+    }
+    // nearly parallel joints (segments with almost the same or the opposite direction) of thick polylines and
+    // triangles, moved to negative coordinates: the join falls back to edge end points there
+    for k in 0..(if th { 30_000 } else { 2_500 }) {
+        let a = (rng.i32(0, 12), rng.i32(0, 12));
+        let d1 = (rng.i32(-9, 9), rng.i32(-9, 9));
+        if d1 == (0, 0) {
+            continue;
+        }
+        let f = *rng.pick(&[1, 1, 2, -1, -2, 3]);
+        let d2 = (d1.0 * f + rng.i32(-1, 1), d1.1 * f + rng.i32(-1, 1));
+        let b = (a.0 + d1.0, a.1 + d1.1);
+        let c = (b.0 + d2.0, b.1 + d2.1);
+        let v = json!([[a.0, a.1], [b.0, b.1], [c.0, c.1]]);
+        let w = rng.u32r(2, 8);
+        let by = *rng.pick(&[(-58, -38), (-31, -47), (-7, -9), (-64, 5), (3, -50), (-101, -101)]);
+        let shape = if k % 3 == 0 { json!({"k":"triangle","v":v}) } else { json!({"k":"polyline","v":v,"off":[0, 0]}) };
+        run_case(&mut rec, &json!({"d": {"kind":"prim","shape":shape,"style":style_desc(-1, col.stroke, w, (k % 3) as u32)}, "by": [by.0, by.1]}));
     }
     rec.finish(json!({}));
 }
